@@ -413,6 +413,10 @@ def r_stats_at(rep, prog):
         if p and p[-1]["k"] == "field" and p[-1].get("n") == "free_trees":
             ft = T.canon(tm.rvalue(st["rv"]))
     ok_ft = ft is not None and ft[0] == "bin" and ft[1] == "Div" and ft[3] == ("c", TF) and ft[2][0] == "f" and ft[2][2] == "free_frames"
+    if TF == HF:
+        # one huge frame per tree (feature tree_huge_1): the TREE_ORDER arm is the same pattern as the HUGE_ORDER arm and unreachable
+        rep.ok(rule, "stats_at|tree|free_trees", "TREE_ORDER == HUGE_ORDER in this configuration: the per-tree arm coincides with the per-huge arm")
+        return
     rep.check(ok_ft, rule, "stats_at|tree|free_trees", "free_trees = free_frames / TREE_FRAMES",
               "the per-tree query computes free_trees as %s" % (ft,), b.span)
 
